@@ -863,7 +863,9 @@ class EventBus:
             await asyncio.sleep(0)  # Yield to event loop
 
             # Double-check we're truly idle - if new events came in, wait again
-            while not self._on_idle.is_set() or self.events_started or self.events_pending:
+            # (the queue must be re-checked too: an event forwarded from another bus while we were waiting
+            # already carries that bus's finished results, so it shows up neither as pending nor as started)
+            while not self._on_idle.is_set() or self.events_started or self.events_pending or self.event_queue.qsize():
                 if timeout is not None:
                     elapsed = asyncio.get_event_loop().time() - start_time
                     remaining_timeout = max(0, timeout - elapsed)
